@@ -172,8 +172,8 @@ def _rebind_module(mod, sre_regex, sre_re):
 
 
 def _stub_localzone():
-    import pytz
-    return _LOCAL
+    from . import dates
+    return dates.LOCAL[0] if dates.LOCAL[0] is not None else _LOCAL
 
 
 class _LocalUTC:
